@@ -7,6 +7,7 @@ import concurrent.futures as cf
 import json
 import os
 import re
+from pathlib import Path
 
 import lib
 import l2
@@ -162,3 +163,70 @@ def inst_for(sd, rng=None):
 
 def inst_suffix(inst):
     return "[" + ", ".join(ctorgen.go_type(t) for t in inst) + "]" if inst else ""
+
+
+_ERR_POS = re.compile(r"([^\s:]+\.go):(\d+):(\d+)")
+
+
+def attribute_errors(pkgdir, struct_names, errs):
+    """Attribute go/types errors of one package to the struct whose GENERATED declarations contain the error
+    position.  Generated code of a type T is either its own file <src>.shootnew.<t>.go or, in a merged file
+    (-file= / -type=*), the block that starts at `func New<T>` (with its doc comment) and ends where the next
+    type's block starts.  Returns ({struct: [errors]}, [errors that belong to no struct: hand-written files,
+    the import section of a merged file, errors without a position])."""
+    pkgdir = Path(pkgdir)
+    own = {n: [] for n in struct_names}
+    general = []
+    blocks = {}          # file name -> sorted [(start line, struct)]
+
+    def file_blocks(fname):
+        if fname in blocks:
+            return blocks[fname]
+        res = []
+        try:
+            lines = (pkgdir / fname).read_text().splitlines()
+        except OSError:
+            lines = []
+        for i, line in enumerate(lines, 1):
+            m = re.match(r"^func New(\w+)[\[(]", line)
+            if m and m.group(1) in own:
+                start = i
+                while start > 1 and lines[start - 2].startswith("//"):
+                    start -= 1
+                res.append((start, m.group(1)))
+        res.sort()
+        blocks[fname] = res
+        return res
+
+    for e in errs:
+        m = _ERR_POS.search(e)
+        if not m:
+            general.append(e)
+            continue
+        fname, line = Path(m.group(1)).name, int(m.group(2))
+        if ".shootnew" not in fname:
+            general.append(e)
+            continue
+        single = [n for n in struct_names if fname.endswith(".shootnew.%s.go" % n.lower())]
+        if single:
+            own[single[0]].append(e)
+            continue
+        owner = None
+        for start, n in file_blocks(fname):
+            if start <= line:
+                owner = n
+        if owner is None:
+            general.append(e)
+        else:
+            own[owner].append(e)
+    return own, general
+
+
+def status_from_errors(name, own, general):
+    """3: an error inside this struct's own generated declarations (or one that cannot be attributed);
+    5: only sibling types' generated declarations have errors; 0: no errors at all"""
+    if own[name] or general:
+        return 3, (own[name] or general)[:3]
+    if any(v for v in own.values()):
+        return 5, [e for v in own.values() for e in v][:3]
+    return 0, []
